@@ -4,6 +4,7 @@ the codecs' recovered bytes, and the byte-preservation kernel of normalization.
 -/
 import ArvVerif.Props.C10
 import ArvVerif.Proofs.C10_Normalize
+import ArvVerif.Proofs.C10_Termination
 namespace ArvVerif.C10
 
 /-- **C10_resolve_bytes.** `resolve` is the document's semantics: for block contents `blk` of the
@@ -57,5 +58,13 @@ theorem C10_normalize_preserves_partial (blk : Bytes → Bytes) (files : List (L
 theorem C10_normalize_tokens (tbl : List (Bytes × Nat)) (fout : Bytes) (segs : List Seg) :
     normSpans tbl fout segs none = (normSpansS tbl segs none).map (spanTok fout) :=
   normSpans_eq tbl fout segs none (by intro a b h; cases h)
+
+/-- **C10_total, hang clause for the searches**: on *every* offsets array (sorted or not, wrapped or
+not) and for either version of the comparison, the loop of `manifest.firstBlock` / Python
+`first_block` exits. (All other loops of the three codecs are bounded `for` loops over tokens or
+blocks; their models are structurally recursive.) -/
+theorem C10_firstBlock_terminates (g : Nat → Nat → Nat → Bool) (offs : List Nat) (rs : List PyRange) (start : Nat) :
+    firstBlockWith g offs start ≠ .outOfFuel ∧ pyFirstBlockWith g rs start ≠ .outOfFuel :=
+  ⟨firstBlockWith_terminates g offs start, pyFirstBlockWith_terminates g rs start⟩
 
 end ArvVerif.C10
